@@ -1562,6 +1562,40 @@ def m_notnan_into_inner(ex, st, callee, args, dest_ty, frame, depth):
     return _ret(st, ex.agg_field(st, v, 0, "f64"))
 
 
+def m_f64_total_cmp(ex, st, callee, args, dest_ty, frame, depth):
+    """f64::total_cmp: the IEEE totalOrder predicate, as a comparison of the sign-magnitude-adjusted bit patterns"""
+    def bits(v):
+        if isinstance(v, Ref) or (isinstance(v, Lazy) and is_ref(v.ty)):
+            c, p = ex.deref_target(st, v)
+            v = ex.read(st, c, p)
+        b = z3.fpToIEEEBV(ex.as_prim(v).e)
+        # left ^= (((left >> 63) as u64) >> 1) as i64   (std's implementation)
+        return b ^ z3.LShR(b >> 63, 1)
+    a, b = bits(args[0]), bits(args[1])
+    d = z3.If(a < b, z3.BitVecVal(-1, 8), z3.If(a == b, z3.BitVecVal(0, 8), z3.BitVecVal(1, 8)))
+    return _ret(st, Prim("i8", d))
+
+
+def m_ordering_pred(ex, st, callee, args, dest_ty, frame, depth):
+    name = callee.split("::")[-1]
+    v = args[0]
+    if isinstance(v, Prim):
+        d = v.e
+    elif isinstance(v, Enum):
+        d = z3.Extract(7, 0, v.discr)
+    else:
+        raise Unencodable(f"Ordering::{name} on {v!r}")
+    zero = z3.BitVecVal(0, 8)
+    e = {"is_gt": d > zero, "is_ge": d >= zero, "is_lt": d < zero, "is_le": d <= zero, "is_eq": d == zero, "is_ne": d != zero}[name]
+    return _ret(st, Prim("bool", e))
+
+
+def m_notnan_deref(ex, st, callee, args, dest_ty, frame, depth):
+    """<NotNan<f64> as Deref>::deref: a reference to the wrapped float"""
+    c, p = ex.deref_target(st, args[0])
+    return _ret(st, Ref("&f64", c, tuple(p) + (("f", 0, "f64"),)))
+
+
 def m_notnan_neg(ex, st, callee, args, dest_ty, frame, depth):
     """<NotNan<f64> as Neg>::neg: the wrapper around the negated float (the negation of a non-NaN is not NaN)"""
     v = args[0]
@@ -1862,6 +1896,9 @@ DEFAULT_MODELS = [
     (_rx(r"^NotNan::<f64>::new$"), m_notnan_new),
     (_rx(r"^NotNan::<f64>::into_inner$"), m_notnan_into_inner),
     (_rx(r"^<&?NotNan<f64> as Neg>::neg$"), m_notnan_neg),
+    (_rx(r"^<NotNan<f64> as Deref>::deref$"), m_notnan_deref),
+    (_rx(r"<impl f64>::total_cmp$"), m_f64_total_cmp),
+    (_rx(r"^(std::cmp::)?Ordering::(is_gt|is_ge|is_lt|is_le|is_eq|is_ne)$"), m_ordering_pred),
     (_rx(r"^(std::rt::|core::panicking::)?(panic|panic_fmt|begin_panic|panic_display|panic_explicit)\b|::expect_failed$|::unwrap_failed$|^(core::)?panicking::panic"), m_panic),
     (_rx(r"^(std::mem::|core::mem::)?drop::<| as (std::ops::)?Drop>::drop$"), m_drop),
     (_rx(r"<impl f64>::(is_nan|is_normal|is_infinite|is_finite|abs)$"), m_fp_method),
